@@ -32,6 +32,19 @@ Posterior / MultipleLikelihoodPosterior decomposition (R is the prior), live-obj
 reference log-density of the COMPLETE assignment = stage-1 reference joint (the values fixed in stage 1 included) +
 scipy densities of the fresh factors.  Thorough tier also: three stages (the reduced density of a stage-2 joint is
 again a member).
+
+Names of the hyper-parameter variables (cells with a "names" entry, helper _c01_names.py): the library links densities by
+NAME (argument names of the callables held in the attributes) and addresses the attributes themselves (mean, cov, prec,
+scale, location, ...) by keyword through the same conditioning call, while the model is independent of how its variables
+are called.  Hierarchical templates (hyper-parameter of the prior / of the noise / shared by two densities / two
+hyper-parameters of one density / of two densities / multi-argument callable) x kind of the entered density and attribute
+x EVERY assignment of names to the hyper-parameter variables from the alphabet {generic} + {attributes of every density of
+the joint except the variable's own prior}: named like the attribute it enters through (the callable is never the
+identity), like a sibling attribute holding a fixed value, like a sibling attribute holding another callable (forward
+model, map of another hyper-parameter), like an attribute of a different density.  Each such graph is explored exactly
+like a catalogue graph.  Oracle unchanged: scipy log-density of the complete assignment with the parameter values computed
+by the harness from its own copy of the maps (the number is the same on every route when a name is mis-resolved, so the
+differential oracle is blind here).
 """
 import itertools
 import numpy as np
@@ -39,6 +52,7 @@ from vfw.core import CellResult, close
 from vfw import refs
 from checks import _graphs as GR
 from checks import _c01_nested as NE
+from checks import _c01_names as NA
 
 PROPERTY = "C01"
 RULE = ("cells = model graph x value catalogue; inside a cell every conditioning history (ordered sequences of "
@@ -54,7 +68,12 @@ RULE = ("cells = model graph x value catalogue; inside a cell every conditioning
         "density over the kept variable x each stage-2 shape gives a derived graph (the reduced density + fresh densities on "
         "the same variable in a new JointDistribution) that is explored like a catalogue graph (all histories, all "
         "well-formed call forms, factors, decomposition, reuse probe, 7 malformed forms; the over-specification value "
-        "catalogue is not repeated) against stage-1 reference joint + reference of the fresh factors")
+        "catalogue is not repeated) against stage-1 reference joint + reference of the fresh factors; "
+        "naming cells = hierarchical template x kind of the entered density/attribute x assignment of names to the "
+        "hyper-parameter variables (generic / the attribute it enters through / a sibling attribute holding a value / a "
+        "sibling attribute holding a callable / an attribute of a different density) x value catalogue: the graph is explored "
+        "like a catalogue graph (all histories, call forms, factors, decomposition, reuse probe, malformed and over-specified "
+        "calls) against the scipy reference with parameters computed by the harness; signatures carry naming=<closest relation>")
 BOUND = {
     "quick": "11 graphs (G1-G5,G6a,G6b,G7,G8,G9 with <=4 variables, G10 with 5; dims<=4), 1 value catalogue (seed%3); all ordered "
              "set partitions of all variable subsets; per step modes {keyword, reversed keyword, positional prefix}; "
@@ -66,14 +85,22 @@ BOUND = {
              "nested: every (graph, kept variable) of the 11 graphs (41 cells) x {(stage-1 history, stage-2 shape)}: shape A (e,R) on "
              "both extreme stage-1 histories {all other variables in one keyword step; one variable per keyword step in parameter "
              "order}, shape C (R,h,e) with a fresh Gamma hyper-parameter h on the one-step history, shape D (e,f,R) with two data "
-             "sets of sizes 2 and 3 on the one-variable-per-step history; x all stage-2 histories with the quick step modes",
+             "sets of sizes 2 and 3 on the one-variable-per-step history; x all stage-2 histories with the quick step modes; "
+             "naming: 3-variable templates P (prior hyper-parameter; entered density in Gaussian.{cov,prec,sqrtcov,sqrtprec}, "
+             "GMRF.prec, LMRF.scale, Laplace.scale, Cauchy.scale, Lognormal.cov), L (noise hyper-parameter; Gaussian.{cov,prec,"
+             "sqrtcov,sqrtprec}), S (one hyper-parameter in two densities), M (two hyper-parameters in one density), C (scalar "
+             "chain, multi-argument callable) x EVERY assignment of distinct names from {generic} + {attributes of all densities "
+             "of the joint but the variable's own prior} except the all-generic one; 4-variable template Q (two hyper-parameters, "
+             "two densities) with the two assignments in which both names are attributes (own/own, crossed); 75 cells",
     "thorough": "same 10 graphs x all 3 value catalogues; per step modes {every keyword order, positional prefix, "
                 "first-variable positional + rest keyword}; plus the 5-variable graph G10 x 3 catalogues with the "
                 "quick tier's step modes; the over-specification alphabet of the quick tier on every graph x catalogue; "
                 "nested, x 3 catalogues: graphs with <=4 variables: shape A on EVERY stage-1 history (all ordered set partitions of "
                 "the other variables x {keyword, reversed keyword, positional prefix}), shapes C, D and B: (e,R,h,f) on the two "
                 "extreme stage-1 histories; G10: the quick plan; every graph: three stages (shape C reduced by {one step, one "
-                "variable per step}, then shapes A and D on top); stage-2/3 step modes are the quick tier's",
+                "variable per step}, then shapes A and D on top); stage-2/3 step modes are the quick tier's; "
+                "naming: all templates incl. Q x every name assignment incl. the all-generic control x 3 catalogues (306 cells), "
+                "per step modes of the thorough tier",
 }
 ASSUMPTIONS = [
     "one probe assignment per value catalogue (values dyadic, admissible: positive hyper-parameters, Beta in (0,1), "
@@ -100,6 +127,13 @@ ASSUMPTIONS = [
     "object that is not a correct single density is skipped there (the one-stage cells judge and report it); fresh "
     "densities are Gaussians with linear callables as mean (no cuqi Model object) and a Gamma hyper-parameter; nesting "
     "depth <= 2 (quick) / 3 (thorough); the over-specification value catalogue is enumerated on catalogue graphs only",
+    "naming cells: names are taken from the attribute lists of the densities of the same joint (confirmed against the "
+    "library's get_mutable_variables at run time, counted, not judged); the name of an attribute of the variable's OWN "
+    "prior is excluded (a density called like one of its own attributes cannot be addressed unambiguously by keyword; the "
+    "pinned tree evaluates such a joint but refuses to condition it: 'mutable variable ... is not a conditioning variable'); "
+    "names of attributes of densities outside the joint, of non-parameter attributes (geometry, name) and of python "
+    "keywords are not covered; every callable of a naming cell is a non-identity map written as source text for the "
+    "library and independently as a harness function for the reference",
 ]
 
 RTOL = 1e-9
@@ -145,6 +179,11 @@ def cells(tier, seed):
         for k in cats:
             for keep in GR.GRAPHS[gid].free:
                 yield {"graph": gid, "cat": k, "tier": tier, "nested": {"keep": keep}}
+    # names of the hyper-parameter variables: one cell per (template, entered density kind, name assignment, catalogue)
+    for template, kind, names, naming in NA.catalogue(tier):
+        for k in cats:
+            spec = {"template": template, "kind": kind, "names": names}
+            yield {"graph": NA.graph_of(spec).gid, "cat": k, "tier": tier, "names": spec, "naming": naming}
 
 
 # stage-1 history sets x stage-2 shapes per tier (see _c01_nested.py); 5-variable graphs always use the quick plan
@@ -774,9 +813,42 @@ def eval_nested(cell):
     return res
 
 
+def eval_named(cell):
+    """One graph of the naming facet (helper _c01_names.py), explored exactly like a catalogue graph."""
+    res = CellResult(cell)
+    g = NA.graph_of(cell["names"])
+    naming = g.naming()
+    res.count("naming:" + naming)
+    for r, rel in g.relations().items():
+        for x in rel:
+            res.count("naming-relation:" + x)
+    # the attribute alphabet the names are taken from is the library's own (anti-vacuity, not a verdict)
+    try:
+        diff = g.confirm_attrs(g.build(cell["cat"]))
+    except Exception as e:  # noqa   (assembly / first conditioning problems are judged by the explorer below)
+        diff = [repr(e)]
+    res.count("naming:attribute-lists-confirmed" if not diff else "naming:attribute-lists-differ")
+    res.outcomes.add("naming:%s:%s" % (cell["names"]["template"], naming))
+    try:
+        g.build(cell["cat"])
+    except Exception as e:  # noqa   assembling a joint is not covered by the statement
+        res.refused += 1
+        res.count("naming:assembly-refused")
+        res.outcomes.add("naming-assembly-refused:%s:%s" % (naming, type(e).__name__))
+        res.nontrivial = False
+        return res
+    ex = Explorer(res, cell, graph=g, tag="naming=" + naming)
+    ex.explore((), set())
+    ex.differential()
+    res.nontrivial = ex.reduced
+    return res
+
+
 def eval_cell(cell):
     if cell.get("nested"):
         return eval_nested(cell)
+    if cell.get("names"):
+        return eval_named(cell)
     res = CellResult(cell)
     ex = Explorer(res, cell)
     ex.explore((), set())
